@@ -18,9 +18,14 @@
 (*        uns             api.call_with_unspecified_conversion_status(f)   *)
 (*        blk             a plain `with ControlStatusCtx(ENABLED):` block  *)
 (*        ic(src,cbd,ur)  api.internal_convert(f, ctx, cbd, ur) where ctx  *)
-(*                        is the current context ("cur") or a fresh one of *)
-(*                        status E / D / U; resolved by IcResolve exactly  *)
-(*                        as internal_convert dispatches                   *)
+(*                        is the current context ("cur"), a context that  *)
+(*                        an enclosing body captured when it started and   *)
+(*                        handed down ("up1": the caller's caller, "up2":  *)
+(*                        one further out; an object that is on the stack  *)
+(*                        *below* the current one and is entered a second  *)
+(*                        time) or a fresh one of status E / D / U;        *)
+(*                        resolved by IcResolve exactly as                 *)
+(*                        internal_convert dispatches                      *)
 (*        plain           f itself; from a converted body this is          *)
 (*                        converted_call(f, fscope.callopts)               *)
 (*   WEnter               the wrapper's `with <ctx>:` entry                *)
@@ -82,23 +87,29 @@ KIc(src, cbd, ur)  == [w |-> "ic",    rec |-> TRUE,  ur |-> ur,    src |-> src, 
 
 KindsAll   == {KCvt(r, u) : r \in BOOLEAN, u \in BOOLEAN} \cup {KCvtL(r, u) : r \in BOOLEAN, u \in BOOLEAN}
               \cup {KDnc, KUns, KBlk, KPlain}
-              \cup {KIc(s, c, u) : s \in {"cur", "E", "D", "U"}, c \in BOOLEAN, u \in BOOLEAN}
+              \cup {KIc(s, c, u) : s \in {"cur", "up1", "up2", "E", "D", "U"}, c \in BOOLEAN, u \in BOOLEAN}
 \* internal_convert ignores cbd unless the status is UNSPECIFIED and ur when it does not convert:
 \* one representative per distinguishable dispatch for the exhaustive runs
 KindsCore  == {KCvt(r, u) : r \in BOOLEAN, u \in BOOLEAN} \cup {KCvtL(TRUE, TRUE), KCvtL(FALSE, TRUE)}
               \cup {KDnc, KUns, KBlk, KPlain}
               \cup {KIc("cur", TRUE, TRUE), KIc("cur", FALSE, FALSE), KIc("E", FALSE, TRUE), KIc("E", FALSE, FALSE),
                     KIc("D", TRUE, TRUE), KIc("U", TRUE, TRUE), KIc("U", FALSE, TRUE)}
+KindsCoreUp == KindsCore \cup {KIc("up1", TRUE, FALSE), KIc("up1", TRUE, TRUE)}
 KindsSmall == {KCvt(TRUE, TRUE), KCvt(FALSE, FALSE), KCvtL(TRUE, TRUE), KDnc, KUns, KPlain, KIc("cur", TRUE, TRUE), KIc("E", FALSE, FALSE)}
 KindsTiny  == {KCvt(TRUE, TRUE), KDnc, KPlain, KIc("cur", TRUE, FALSE)}
 KindsTrio  == {KCvt(TRUE, TRUE), KDnc, KPlain}
+\* the captured-context family: a context captured by an enclosing body (the thread default, a plain block's,
+\* a user-requested function scope's, a region's) is re-entered by internal_convert below other contexts
+KindsUp    == {KCvt(TRUE, TRUE), KDnc, KUns, KBlk, KIc("up1", TRUE, FALSE), KIc("up2", TRUE, TRUE)}
+KindsCov   == KindsTiny \cup KindsUp
 KindsTinyL == {KCvtL(TRUE, TRUE), KCvt(FALSE, TRUE), KDnc, KPlain, KIc("E", FALSE, FALSE)}
 
 (* a number for every kind, used only to split enumerations *)
 KindNo(k) == (CASE k.w = "cvt" -> 0 [] k.w = "dnc" -> 1 [] k.w = "uns" -> 2 [] k.w = "blk" -> 3 [] k.w = "plain" -> 4 [] OTHER -> 5)
              + 6 * ((IF k.rec THEN 1 ELSE 0) + 2 * (IF k.ur THEN 1 ELSE 0) + 4 * (IF k.cbd THEN 1 ELSE 0)
                     + 40 * (IF k.lam THEN 1 ELSE 0)
-                    + 8 * (CASE k.src = "cur" -> 1 [] k.src = "E" -> 2 [] k.src = "D" -> 3 [] k.src = "U" -> 4 [] OTHER -> 0))
+                    + 8 * (CASE k.src = "cur" -> 1 [] k.src = "E" -> 2 [] k.src = "D" -> 3 [] k.src = "U" -> 4 [] k.src = "up1" -> 5
+                                 [] k.src = "up2" -> 6 [] OTHER -> 0))
 
 NoKind == [w |-> "-", rec |-> FALSE, ur |-> FALSE, src |-> "none", cbd |-> FALSE, lam |-> FALSE]
 
@@ -114,6 +125,13 @@ TopFrame(t) == cs[t][Len(cs[t])]
 Depth(t)    == Cardinality({i \in 1..Len(cs[t]) : cs[t][i].f = "body"}) - 1
 SetTop(t, fr) == [cs EXCEPT ![t] = [@ EXCEPT ![Len(@)] = fr]]
 Pop(s)      == SubSeq(s, 1, Len(s) - 1)
+
+(* `ctx = control_status_ctx()` at the start of a body, handed down to the calls below it: the context that
+   was current when the body j levels outside the calling body started (its `cur`); beyond the driver it is
+   the driver's.  Such an object is still on the stack (its with-block is in progress), in general not on top. *)
+BodyIdx(t)     == {i \in 1..Len(cs[t]) : cs[t][i].f = "body"}
+Captured(t, j) == LET up == {i \in BodyIdx(t) : Cardinality({x \in BodyIdx(t) : x > i}) = j}
+                  IN IF up = {} THEN cs[t][1].cur ELSE cs[t][CHOOSE i \in up : TRUE].cur
 
 (* ---- ControlStatusCtx.__enter__ / __exit__ -------------------------------- *)
 Entered(t, c) == Append(stack[t], c)                         \* _control_ctx().append(self)
@@ -168,8 +186,12 @@ Call(t, k) ==
   /\ Running(t, "run") /\ ~exc[t]
   /\ LET fr == TopFrame(t)
          n == nn[t] + 1
-         fresh == k.w = "ic" /\ k.src # "cur"                \* the harness creates ControlStatusCtx(status)
-         ictx == IF k.w # "ic" THEN NoCtx ELSE IF k.src = "cur" THEN Top(t) ELSE NewCtx(t, k.src)
+         fresh == k.w = "ic" /\ k.src \in {"E", "D", "U"}    \* the harness creates ControlStatusCtx(status)
+         ictx == CASE k.w # "ic"    -> NoCtx
+                   [] k.src = "cur" -> Top(t)                 \* control_status_ctx() at the call
+                   [] k.src = "up1" -> Captured(t, 1)         \* captured further out: on the stack, not on top
+                   [] k.src = "up2" -> Captured(t, 2)
+                   [] OTHER         -> NewCtx(t, k.src)
          r == IF k.w = "ic" THEN IcResolve(k, ictx) ELSE [w |-> k.w, rec |-> k.rec, ur |-> k.ur, cctx |-> NoCtx, lam |-> k.lam]
          \* plain call: from a converted body converted_call(f, callopts) converts iff callopts allow
          \* (internal_convert_user_code = recursive) and the status is not DISABLED; never user requested
@@ -321,6 +343,11 @@ TypeOK == \A t \in Threads : Len(stack[t]) >= 1 /\ stack[t][1] = DefaultCtx(t) /
 (* isolation: a step changes the stack of at most one thread, the one taking it *)
 Changed(t) == stack'[t] # stack[t] \/ cs'[t] # cs[t] \/ exc'[t] # exc[t]
 Isolation == [][\A t, u \in Threads : (Changed(t) /\ Changed(u)) => t = u]_vars
+
+(* vacuity of the captured-context kinds: some context object is on a stack twice with another one in between
+   (reporting invariant, used on a tiny instance only) *)
+Split == \E t \in Threads : \E i, j \in 1..Len(stack[t]) : i + 1 < j /\ stack[t][i] = stack[t][j]
+SplitReport == Split => PrintT(ToJson([split |-> TRUE]))
 
 (* ==== expected observations for the harness (single thread, Record) ========== *)
 Done == \A t \in Threads : cs[t] = <<>>
